@@ -59,7 +59,7 @@ class C22(Check):
         f = bytearray(rng.randrange(256) for _ in range(L))
         f[12:14] = b"\x88\xa4"
         f[16] = 0
-        g = rng.randrange(64)
+        g = rng.choice([0, 1, 62, 63, 63]) if rng.random() < 0.3 else rng.randrange(64)      # the first and the last group numbers often
         c = rng.choice([0, 1, 2, 3, 254, 255, 256, 257, 511, 2 ** 32 - 1, 2 ** 32 - 2, rng.randrange(2 ** 32)])
         b = c % 256
         f[17] = rng.choice([b, (b - 1) % 256, 0, (b + 1) % 256, (b - 2) % 256, rng.randrange(256)])
